@@ -25,6 +25,7 @@ struct Recipe {
   int ncomm = 2;        // user comments
   int bs64 = 0;         // patch short block size to 64 in the ID header (C20 refusal clause only)
   int trim = 0, tk = 3;  // trim>0: a sample-accurately cut start ("short first page"): only every tk-th packet and the last carry a granule position, all lowered by trim
+  int craft = 0;        // != 0: not encoded but written bit by bit from the specification (craft.cpp): seeded legal set-up headers of kinds the encoder never emits, noise packets; n = number of audio packets
   int modes3 = 0;       // declare a third mode (a copy of the long-block mode) and let every other long packet use it: a legal stream with a non-power-of-two mode count that the bundled encoder never writes
   int mute = 0;         // bit c set: channel c is digital silence (coupled pairs with one silent channel take their own decode paths)
   int cut = 0;          // leading audio packets removed after encoding: a stream cut at a packet boundary, whose positions start at a non-zero granule
@@ -56,6 +57,7 @@ struct Signal { explicit Signal(const Recipe &r); ~Signal(); float at(int c, int
 ogg_packet pkt_to_op(const Pkt &p);
 Pkt pkt_from_op(const ogg_packet &op);
 
+void craft_link(Link &l);
 std::shared_ptr<Link> get_link(const Recipe &r);   // cached per process
 void ensure_half(Link &l);
 // decode a packet list through the packet-level API; returns per-channel pcm and per-packet chunk sizes.
